@@ -307,9 +307,10 @@ class World:
                 for a_ in inst.get("args", []):
                     t = it.p.types[a_]
                     if t["k"] == "closure":
-                        cands = [i_ for i_ in it.p.inst if i_.get("def_kind") == "Closure" and i_.get("has_mir") and i_["path"] == t.get("name")]
-                        if len(cands) == 1:
-                            body = cands[0]["id"]
+                        from .summ import closure_instance
+                        ci = closure_instance(it.p, a_)
+                        if ci is not None:
+                            body = ci
             if body is None:
                 raise Undecided("cannot identify the comparator passed to %s" % inst["name"][:80])
             fcell = st.new_obj(args[1])
